@@ -24,8 +24,8 @@ checks = {
          "Every block goes to 2-3 independent app instances (results and app hashes compared byte for byte); crash/restart of one replica must converge; a share of runs re-executes the history in a child process (from genesis or from a mid-history dump of the node's disk; in 8 of 10 cases inside a synctest bubble whose wall clock is set to 2003..2095) and compares every tx result digest and app hash. The property quantifies over repetitions of an execution: a replay of a C07 counterexample repeats the identical choice list up to 12 times."),
  "C08": ("chainsim", "seeded simulation with changing attestations/provider records; independent set-based admission predicate over a history model of attestations and declarations",
          "accepted bid => predicate of the statement holds, where what auditors attested and providers declared is kept by the harness from the successful transactions alone (not read back from the stores), the order maximum is the harness's own sum and accounts are compared decoded; successful provider update => new attributes cover the requirements of each active lease."),
- "C16": ("chainsim", "seeded simulation; expected event multiset derived from the state diff, every emitted event decoded through the provider's real parser (overlay export)",
-         "For every successful tx the typed events decoded by events.processEvent must re-encode to what was emitted and must equal the multiset the state change demands (no missing, repeated or spurious created/closed/paused/started events), including changes made indirectly by escrow hooks."),
+ "C16": ("chainsim", "seeded simulation; expected event multiset derived from the state diff, every emitted event decoded through the modules' exported event parsers",
+         "For every successful tx the typed events decoded by the exported module parsers (the ones events.processEvent dispatches to) must re-encode to what was emitted and must equal the multiset the state change demands (no missing, repeated or spurious created/closed/paused/started events), including changes made indirectly by escrow hooks."),
  "C17": ("chainsim", "seeded simulation of create/revoke histories with extreme serials; map model + real gRPC listing queries with all filters and paging modes",
          "Certificate store equals the history model after every tx (unique per owner+serial, only valid->revoked, never removed); every listing (filters x page sizes x key/offset paging) returns without error or panic exactly the model's answer."),
  "C19": ("chainsim", "seeded simulation with create-deployment messages at and beyond every bound, gas aborts and governance changes of the minimum deposit; independent big-integer predicate + stored-state scan",
@@ -33,13 +33,13 @@ checks = {
  "C13": ("provsim", "seeded actor-level (Layer 1) and goroutine-level (Layer 2, generated scheduling points) scheduling of the real bid engine against parked chain/cluster/pricing calls with event, failure, clock and crash faults; call-log oracle",
          "Real bidengine service + order monitors + real bus; every outside call parks until the seeded scheduler completes or fails it, chain events are delivered/lost at every pipeline point, clock jumps fire the bid timeout, the provider crashes and restarts (catch-up with and without an existing bid). Oracle over the call log: <=1 create-bid per order and incarnation, price <= max, reservation completed before the bid, and after handling ended without LeaseWon every granted reservation is followed by Unreserve and every placed bid by a close-bid; no create-bid while the provider's bid is on chain, whichever incarnation sent it. Every second run is Layer 2: the instrumented actor files park at every go statement, channel operation and select, and the choice stream decides which goroutine proceeds."),
  "C15": ("provsim", "seeded operation histories on the real bus (Layer 1: queue-model conformance; Layer 2: concurrent tasks under a goroutine-level seeded scheduler, recorded history checked for linearizability with porcupine; chain-feed scenario for events/publish.go)",
-         "publish/subscribe/clone/read/close histories on the real pubsub bus (real go-lifecycle), compared with a queue model: every subscriber gets every event published after its subscription exactly once in order, a clone inherits exactly the undelivered events, stalled readers and closes never block publishers or others. Layer 1: histories are sequential at the API, with publish bursts against slow readers. Layer 2 (every second run): publishers, readers, cloner, closer as concurrent tasks with every channel operation of bus.go/lifecycle.go a scheduling point; the invoke/return history is checked against the sequential model with porcupine; a quarter of these runs feed events.publishEvents from a filled subscription channel and demand per-stream order at every subscriber."),
+         "publish/subscribe/clone/read/close histories on the real pubsub bus (real go-lifecycle), compared with a queue model: every subscriber gets every event published after its subscription exactly once in order, a clone inherits exactly the undelivered events, stalled readers and closes never block publishers or others. Layer 1: histories are sequential at the API, with publish bursts against slow readers. Layer 2 (every second run): publishers, readers, cloner, closer as concurrent tasks with every channel operation of bus.go/lifecycle.go a scheduling point; the invoke/return history is checked against the sequential model with porcupine; a quarter of these runs drive events.Publish with a stand-in node client whose subscription channels are filled with transaction and block results and demand per-stream order at every subscriber."),
  "C12": ("provsim", "seeded reserve/release/status/deployment-event/inventory-refresh histories on the real inventory service; exact bin-packing search as grant oracle, per-reservation status model",
          "Real cluster service + inventoryService with per-run commit levels and port quantity; Inventory() answers (1-4 nodes, drawn capacities, errors, slow) are completed by the scheduler. Oracle: grant => an exact backtracking search places all not-yet-deployed reservations plus the new one (scaled by the commit levels in their weakest reading) on the capacity last reported, and random-port endpoints fit the free ports; status lists exactly one entry per outstanding reservation, with the same amounts every time; release removes exactly one."),
  "C14": ("provsim", "seeded actor-level (Layer 1) and goroutine-level (Layer 2) scheduling of the real cluster service and deployment managers against parked Deploy/Teardown/Inventory/LeaseStatus calls; interval-log oracle + bounded-progress drain + release checks against the real inventory and hostname services",
-         "Real cluster.NewService (service loop, inventory, hostname service, managers, monitors, withdrawal) over a real bus; manifest updates, lease-closed, completion ok/error of every parked cluster call, clock jumps. Oracle over the [start,end) log per lease: no two cluster operations overlap, no deploy starts after the lease-closed signal was delivered to a managed lease, teardown after the last deploy and then reservation and hostnames released, otherwise the last deploy uses the latest manifest - within a bounded fair drain; all hostnames any manifest version asked for are free afterwards. Every second run is Layer 2 (goroutine-level), which reaches the hostname-reservation window (DESIGN.md S7)."),
+         "Real cluster.NewService (service loop, inventory, hostname service, managers, monitors, withdrawal) over a real bus; manifest updates, lease-closed, completion ok/error of every parked cluster call, clock jumps. Oracle over the [start,end) log per lease: no two cluster operations overlap, no deploy starts after the lease-closed signal was delivered to a managed lease, teardown after the last deploy and then reservation and hostnames released, otherwise the last deploy uses the latest manifest - within a bounded fair drain; all hostnames any manifest version asked for are free afterwards. Every second run is Layer 2 (goroutine-level), which reaches the hostname-reservation window (DESIGN.md S7). A quarter of the histories start the service over workloads that already run (parked Deployments / active-lease answers); in Layer 2 leases close and updates arrive while the service is still starting."),
  "C20": ("provsim", "seeded actor-level (Layer 1) and goroutine-level (Layer 2) scheduling of the real manifest service against a parked deployment fetch with lease/version/close events (through the provider's event parser) and concurrent submissions; reply/announcement oracle + bounded drain",
-         "Real manifest service/manager/watchdog over a real bus; LeaseWon, submissions (valid/invalid/stale, some with deadlines) from independent tasks, fetch completion ok/error/late, version updates, lease removal, deployment close, clock. Oracle: every submission is answered within the drain budget; an announcement only for a lease the provider can still believe it holds, after a successful fetch, carrying a validated manifest that is the latest one; acceptance implies announcement."),
+         "Real manifest service/manager/watchdog over a real bus; LeaseWon, submissions (valid/invalid/stale, some with deadlines) from independent tasks, fetch completion ok/error/late, version updates, lease removal, deployment close, clock. Oracle: every submission is answered within the drain budget; an announcement only for a lease the provider can still believe it holds, after a successful fetch, carrying a validated manifest that is the latest one; acceptance implies announcement. In 30 % of the Layer-1 runs the hostname service answers only when the schedule says so, so that updates, closes and clock steps fall into a validation."),
  "C09": ("gwsim", "seeded connection/registration/revocation/clock histories against the real gateway TLS config and REST router over in-memory pipes inside a synctest bubble, certificates served by the real x/cert querier of a simulated chain; concurrent authenticated requests with statement-level scheduling points in the middleware (Layer 2); harness-side credential registry as oracle",
          "Real gwutils.NewServerTLSConfig + real rest router behind net/http, real crypto/tls client handshakes, cert lookups answered by the real x/cert keeper/querier of a chainsim world in which certificates are created/revoked by real transactions; genuine, forged (copied CN+serial), foreign-issuer, revoked, unknown, expired/not-yet-valid (clock jumps), wrong-usage, chained and absent credentials, resumed sessions, chain query errors/stalls, hostile paths and parameters. Oracle: accepted => presented DER is the registered, unrevoked, currently valid clientAuth certificate of that account and the query was not faulted; every back-end call is scoped to the authenticated owner and this provider - also when 2-3 authenticated requests are in flight at once and the choice stream interleaves their middleware statement by statement."),
  "C10": ("provsim", "same simulated manifest-service histories as C20; window oracle on the on-chain version plus harness-side multiset comparison; hash checks on generated manifests",
@@ -61,7 +61,7 @@ def main():
         "setup_cmd": "./setup.sh",
         "hooks": {
             "guard": "verif-overlay",
-            "enable": "checks build /repo's working tree with `go build -overlay build/overlay.json` (files added to /repo packages only at build time); nothing is committed to /repo for hooks",
+            "enable": "checks build /repo's working tree with `go build -overlay`: build/overlay.json adds one file exporting the kube builders to provider/cluster/kube at build time; the Layer-2 binaries (bin/provsim2.test, bin/gwsim2.test) additionally substitute generated copies of the provider's actor files in which cmd/yieldgen has inserted scheduling points (regenerated from /repo's working tree by every build, build/l2, build/gwl2). Nothing is committed to /repo for hooks; with no overlay the tree is the shipped one",
             "baseline_off_cmd": "cd /repo && go test -vet=off -count=1 -timeout 25m ./...",
             "source_commits": [],
             "add_only": True,
